@@ -1529,6 +1529,11 @@ func (t *itype) convertibleTo(o *itype) bool {
 		return true
 	}
 
+	if t.isNil() {
+		// The untyped nil is convertible only to the types it is assignable to.
+		return false
+	}
+
 	// unsafe checks
 	tt, ot := t.TypeOf(), o.TypeOf()
 	if (tt.Kind() == reflect.Ptr || tt.Kind() == reflect.Uintptr) && ot.Kind() == reflect.UnsafePointer {
